@@ -51,10 +51,11 @@ Soft(name, cond, detail) ==
 
 (* ----- steps nobody observes from outside ----- *)
 Hidden(s) ==
-  DoLDial(s) \cup DoWaitRet(s)
+  DoLDial(s) \cup DoWaitRet(s) \cup DoLWaitRet(s) \cup {t \in DoReaperStart(s) : t.exec = "ok"}
   \cup UNION {{t \in DoKBody(s, i) : t.exec = "ok"} \cup DoKClose(s, i) \cup DoKKill9(s, i) \cup DoKEnd(s, i)
               \cup (IF s.child # "running" THEN DoKTerm(s, i) \cup DoKInt(s, i) ELSE {})
-              \cup DoTransBody(s, i) \cup DoKillBodyBasic(s, i) : i \in HIdx(s)}
+              \cup DoTransBody(s, i) \cup DoTransCommit(s, i) \cup DoKillBodyBasic(s, i)
+              \cup DoNoopBody(s, i) \cup DoStartBody(s, i) \cup {t \in DoStopBody(s, i) : t.exec = "ok"} : i \in HIdx(s)}
 RECURSIVE Clo(_, _)
 Clo(X, n) ==
   IF n = 0 THEN X
@@ -62,15 +63,8 @@ Clo(X, n) ==
 Closure(X) == Clo(X, 14)
 
 (* ----- the observable step named by a line, from one candidate ----- *)
-Answered(s, i, t) == t.exec = "ok" /\ Len(t.hs) < Len(s.hs)
 ObsResp(s) ==
-  UNION {
-    IF s.hs[i].r # Line.r THEN {}
-    ELSE IF s.kind = "ctl"
-      THEN IF Line.err <=> ~TransOk(s, s.hs[i].r) THEN DoTransCommit(s, i) ELSE {}
-      ELSE {t \in DoNoopBody(s, i) \cup DoStartBody(s, i) : ~Line.err}
-           \cup {t \in DoStopBody(s, i) : Answered(s, i, t) /\ (Line.err <=> (s.cmd /\ s.ps # "exited" /\ ~GroupThere(s)))}
-    : i \in HIdx(s)}
+  UNION {IF s.hs[i].r = Line.r /\ s.hs[i].err = Line.err THEN DoRespond(s, i) ELSE {} : i \in HIdx(s)}
 
 ObsStatus(s) ==
   LET st == Short(Line.state)
@@ -79,7 +73,7 @@ ObsStatus(s) ==
   IN {t \in acts : t.exec = "ok" /\ t.sent = Append(s.sent, st)}
 
 ObsPanic(s) ==
-  {t \in DoLPoll(s) \cup UNION {DoStopBody(s, i) \cup DoKBody(s, i) : i \in HIdx(s)} : t.exec = "panicked"}
+  {t \in DoLPoll(s) \cup DoReaperStart(s) \cup UNION {DoStopBody(s, i) \cup DoKBody(s, i) : i \in HIdx(s)} : t.exec = "panicked"}
 
 Obs(s) ==
   LET e == Line.ev IN
